@@ -49,39 +49,39 @@ var props = map[string]propSpec{
 	"C12": {
 		QuickShards: 8, ThoroughShards: 16,
 		Fuzz:        []fuzzSpec{{"FuzzC12Binary", 45}},
-		Rule:        "rapid draws 128-bit patterns (uniform, structured finite, zeros, NaN/Inf with payload/garbage); MarshalBinary bytes are decoded by an independent BID decoder and compared with Decompose and String (routes that do not involve MarshalBinary), re-encoded by an independent encoder, round-tripped bit for bit from both the Decimal side and the byte side; byte slices of length 0..64 for the length rule; hand-computed IEEE vectors pin the independent codec. Non-trivial = coefficient above 2^64, steering form, or special with payload bits / length != 16; distinct = distinct pattern.",
+		Rule:        "rapid draws 128-bit patterns (uniform, structured finite, zeros, NaN/Inf with payload/garbage); MarshalBinary bytes are decoded by an independent BID decoder and compared with Decompose and String (routes that do not involve MarshalBinary), re-encoded by an independent encoder, round-tripped bit for bit from both the Decimal side and the byte side; byte slices of length 0..64 for the length rule; hand-computed IEEE vectors pin the independent codec. Every decoding call is made on a receiver whose earlier contents are a pure function of the case (zero value, all ones, -Cmax*10^6111, +Inf or arbitrary bits): the stored result must not depend on them. Non-trivial = coefficient above 2^64, steering form, or special with payload bits / length != 16; distinct = distinct pattern.",
 		Assumptions: commonAssumptions,
 	},
 	"C14": {
 		QuickShards: 8, ThoroughShards: 16,
 		Fuzz:        []fuzzSpec{{"FuzzC14Compose", 60}},
-		Rule:        "rapid draws Decimals with nil/short/reusable buffers for Decompose->Compose round trips, and arbitrary parts (form 0..255, sign, coefficient bytes c*10^z+small up to ~400 bytes with leading zero bytes, int32 exponents incl. extremes and compensation windows); oracle: representable iff the exact value has a format member (RoundX toward zero == away), then Compose must return exactly it, otherwise an error. Non-trivial = coefficient longer than 16 bytes or exponent outside -6176..6111 (parts), coefficient above 2^64 (round trip); distinct = distinct arguments.",
+		Rule:        "rapid draws Decimals with nil/short/reusable buffers for Decompose->Compose round trips, and arbitrary parts (form 0..255, sign, coefficient bytes c*10^z+small up to ~400 bytes with leading zero bytes, int32 exponents incl. extremes and compensation windows); oracle: representable iff the exact value has a format member (RoundX toward zero == away), then Compose must return exactly it, otherwise an error. Every decoding call is made on a receiver whose earlier contents are a pure function of the case (zero value, all ones, -Cmax*10^6111, +Inf or arbitrary bits): the stored result must not depend on them. Non-trivial = coefficient longer than 16 bytes or exponent outside -6176..6111 (parts), coefficient above 2^64 (round trip); distinct = distinct arguments.",
 		Assumptions: commonAssumptions,
 	},
 	"C11": {
 		QuickShards: 8, ThoroughShards: 16,
-		Rule:        "rapid draws New(sig, exp) with sig over int64 (bounds, powers of ten, digit patterns, uniform) and exp over -7000..7000, windows around -6176-25..-6176+20 and 6111-5..6111+45, +-13000 and int extremes; Ldexp(frac, exp) with finite frac over the full range and exp steered so that frac's exponent + exp lands in the subnormal/overflow windows even when exp alone is out of range; Frexp over all patterns. Oracle: exact sig*10^exp / frac*10^exp rounded nearest-even with the 1e-6177 flush rule; Frexp: 0.1<=|frac|<1, frac*10^e == d exactly, Ldexp(Frexp(d)) has d's value. Non-trivial = result clamped/rounded/compensated (New, Ldexp) or finite non-zero argument (Frexp); distinct = distinct arguments.",
+		Rule:        "rapid draws New(sig, exp) with sig over int64 (bounds, powers of ten, digit patterns, uniform) and exp over -7000..7000, windows around -6176-25..-6176+20 and 6111-5..6111+45, +-13000 and int extremes; Ldexp(frac, exp) with finite frac over the full range and exp steered so that frac's exponent + exp lands in the subnormal/overflow windows even when exp alone is out of range; Frexp over all patterns. Oracle: exact sig*10^exp / frac*10^exp rounded nearest-even with the 1e-6177 flush rule; Frexp: 0.1<=|frac|<1, frac*10^e == d exactly, Ldexp(Frexp(d)) has d's value. Wherever the statement promises an exact result (no rounding needed), the call is repeated under the five non-default values of DefaultRoundingMode and must give the same value. Non-trivial = result clamped/rounded/compensated (New, Ldexp) or finite non-zero argument (Frexp); distinct = distinct arguments.",
 		Assumptions: commonAssumptions,
 	},
 	"C10": {
 		QuickShards: 8, ThoroughShards: 16,
-		Rule:        "rapid draws (a) int64/uint64 values incl. all type bounds for the four exact constructors, (b) big.Int up to 21k bits (random bits <=128/129..256/>256, c*10^k with tie patterns through the 1e18-step reduction, the overflow threshold, powers of two) for FromInt, (c) Decimals near every type bound at scales 0..15, fractions just below an integer, values in (-1,1), huge exponents for Int (nil and pre-loaded receiver) and Int64/Int32/Uint64/Uint32 against exact truncation, (d) Decimals for Rat and the FromRat(Rat(d)) round trip, (e) rationals from digit strings <=34 digits (correct rounding) and from the big.Int generator (2e-33 relative tolerance, neighbours at the edges of the range). Non-trivial = case near a type bound / beyond 2^128 / non-integer / coefficient beyond 113 bits / any rational; distinct = distinct arguments.",
+		Rule:        "rapid draws (a) int64/uint64 values incl. all type bounds for the four exact constructors, (b) big.Int up to 21k bits (random bits <=128/129..256/>256, c*10^k with tie patterns through the 1e18-step reduction, the overflow threshold, powers of two) for FromInt, (c) Decimals near every type bound at scales 0..15, fractions just below an integer, values in (-1,1), huge exponents for Int (nil and pre-loaded receiver) and Int64/Int32/Uint64/Uint32 against exact truncation, (d) Decimals for Rat and the FromRat(Rat(d)) round trip, (e) rationals from digit strings <=34 digits (correct rounding) and from the big.Int generator (2e-33 relative tolerance, neighbours at the edges of the range). Wherever the statement promises an exact result (no rounding needed), the call is repeated under the five non-default values of DefaultRoundingMode and must give the same value. Non-trivial = case near a type bound / beyond 2^128 / non-integer / coefficient beyond 113 bits / any rational; distinct = distinct arguments.",
 		Assumptions: commonAssumptions,
 	},
 	"C09": {
 		QuickShards: 8, ThoroughShards: 16,
-		Rule:        "rapid draws float64/float32 bit patterns (uniform words, subnormals, 2^k and 2^k(1+2^-52) for every binary exponent, small mantissas, decimal-looking values, top binades, specials) for FromFloat64/32 against the exact binary value rounded nearest-even, plus the Float64/Float32 round trip; Decimals dense in the float range, built next to exact float values and to midpoints between adjacent floats (approached from both sides to the 34th digit), exactly representable values and range edges, for Float64/Float32 against the two neighbouring floats computed with big.Rat; Float at precisions 1..400 with nil and pre-loaded receivers (2^(1-prec) bound, correct rounding from 114 bits); FromFloat of big.Floats with mantissas up to 600 bits and binary exponents up to +-21500 (2e-33 relative, neighbours at the range edges). A sweep checks FromFloat32(f).Float32()==f on a strided sample (quick) or all 2^32 patterns (thorough, sub-check marked exhaustive). Non-trivial = inexact conversion; distinct = distinct argument bits.",
+		Rule:        "rapid draws float64/float32 bit patterns (uniform words, subnormals, 2^k and 2^k(1+2^-52) for every binary exponent, small mantissas, decimal-looking values, top binades, specials) for FromFloat64/32 against the exact binary value rounded nearest-even, plus the Float64/Float32 round trip; Decimals dense in the float range, built next to exact float values and to midpoints between adjacent floats (approached from both sides to the 34th digit), exactly representable values and range edges, for Float64/Float32 against the two neighbouring floats computed with big.Rat; Float at precisions 1..400 with nil and pre-loaded receivers (2^(1-prec) bound, correct rounding from 114 bits); FromFloat of big.Floats with mantissas up to 600 bits and binary exponents up to +-21500 (2e-33 relative, neighbours at the range edges). A sweep checks FromFloat32(f).Float32()==f on a strided sample (quick) or all 2^32 patterns (thorough, sub-check marked exhaustive). Wherever the statement promises an exact result (no rounding needed), the call is repeated under the five non-default values of DefaultRoundingMode and must give the same value. Non-trivial = inexact conversion; distinct = distinct argument bits.",
 		Assumptions: append([]string{"math/big.Rat.Float64/Float32 return the nearest float and an exactness flag (used only to find the two neighbouring floats)"}, commonAssumptions...),
 	},
 	"C05": {
 		QuickShards: 8, ThoroughShards: 16,
 		Fuzz:        []fuzzSpec{{"FuzzC05Parse", 90}},
-		Rule:        "rapid draws (i) literals from the documented grammar: sign, digit runs of 1..450 digits (thorough: occasionally 32k-70k digits or leading-zero runs of that length), ties and near-ties after the 34th/35th digit, the 38/39-digit accumulation cut-off, '.' at every position, '_' between digits, exponents with sign/leading zeros/separators steered to the subnormal, flush and overflow windows and to huge magnitudes, NaN/Inf/Infinity in random case; runs of up to 1.1 million zeros cancelled by the written exponent (moderate values whose digit count and exponent both exceed 16- and 20-bit counters); each is parsed under all 6 DefaultRoundingMode values by Parse, MustParse, UnmarshalText and fmt.Sscan and compared with an independent numeral evaluator + RoundX, incl. the ErrRange/Inf rule; (ii) invalid strings: random bytes, random strings over the literal alphabet, a fixed list of near-misses, and 1-2 byte mutations of valid literals, classified by an independent recogniser: must give ErrSyntax (MustParse panics). Non-trivial = literal with more than 35 significant digits, or in a clamp window, or with separators, or invalid; distinct = distinct string.",
+		Rule:        "rapid draws (i) literals from the documented grammar: sign, digit runs of 1..450 digits (thorough: occasionally 32k-70k digits or leading-zero runs of that length), ties and near-ties after the 34th/35th digit, the 38/39-digit accumulation cut-off, '.' at every position, '_' between digits, exponents with sign/leading zeros/separators steered to the subnormal, flush and overflow windows and to huge magnitudes, NaN/Inf/Infinity in random case; runs of up to 1.1 million zeros cancelled by the written exponent (moderate values whose digit count and exponent both exceed 16- and 20-bit counters); each is parsed under all 6 DefaultRoundingMode values by Parse, MustParse, UnmarshalText and fmt.Sscan and compared with an independent numeral evaluator + RoundX, incl. the ErrRange/Inf rule; (ii) invalid strings: random bytes, random strings over the literal alphabet, a fixed list of near-misses, and 1-2 byte mutations of valid literals, classified by an independent recogniser: must give ErrSyntax (MustParse panics). Every decoding call is made on a receiver whose earlier contents are a pure function of the case (zero value, all ones, -Cmax*10^6111, +Inf or arbitrary bits): the stored result must not depend on them. Non-trivial = literal with more than 35 significant digits, or in a clamp window, or with separators, or invalid; distinct = distinct string.",
 		Assumptions: append([]string{"signed NaN and doubled underscores are not settled by the statement and are excluded from both the valid and the invalid set (counted as unclaimed-form)", "below 1e-6177 both a signed zero and the directed-mode rounding are accepted"}, commonAssumptions...),
 	},
 	"C06": {
 		QuickShards: 8, ThoroughShards: 16,
-		Rule:        "rapid draws 128-bit patterns (uniform, structured finite with every coefficient length and trailing-zero run, values whose leading-digit exponent is around the -4/6 switch, zeros, specials); String, MarshalText, %v, fmt.Sprint, Decimal.Append(nil or prefix, \"v\"), Format/Append('g'/'G',-1), ('e'/'E',-1) and ('f',-1) are compared byte for byte with strings constructed from the decoded (digits, exponent) by the rule the statement gives, re-read by an independent numeral evaluator, and round-tripped through Parse, UnmarshalText and fmt.Sscan (Equal, same sign; class for NaN/Inf). 'f' at |exponent| >= 300 is sampled at 1/50. Non-trivial = at least two significant digits; distinct = distinct pattern.",
+		Rule:        "rapid draws 128-bit patterns (uniform, structured finite with every coefficient length and trailing-zero run, values whose leading-digit exponent is around the -4/6 switch, zeros, specials); String, MarshalText, %v, fmt.Sprint, Decimal.Append(nil or prefix, \"v\"), Format/Append('g'/'G',-1), ('e'/'E',-1) and ('f',-1) are compared byte for byte with strings constructed from the decoded (digits, exponent) by the rule the statement gives, re-read by an independent numeral evaluator, and round-tripped through Parse, UnmarshalText and fmt.Sscan (Equal, same sign; class for NaN/Inf). 'f' at |exponent| >= 300 is sampled at 1/50. Every decoding call is made on a receiver whose earlier contents are a pure function of the case (zero value, all ones, -Cmax*10^6111, +Inf or arbitrary bits): the stored result must not depend on them. Non-trivial = at least two significant digits; distinct = distinct pattern.",
 		Assumptions: commonAssumptions,
 	},
 	"C07": {
@@ -93,7 +93,7 @@ var props = map[string]propSpec{
 	"C13": {
 		QuickShards: 8, ThoroughShards: 16,
 		Fuzz:        []fuzzSpec{{"FuzzC13UnmarshalJSON", 60}},
-		Rule:        "rapid draws Decimals (all patterns, values around the -6/20 switch of the JSON form) for MarshalJSON: the output must match an RFC 8259 number recogniser, denote the value exactly (independent numeral evaluator), carry no superfluous digits, and round-trip directly and through encoding/json inside a struct, slice, map and pointer; NaN/Inf must give *json.UnsupportedValueError. For UnmarshalJSON: RFC 8259 numbers from a grammar (ties after the 34th digit, long digit strings, exponents in the clamp windows and beyond int16), under a drawn DefaultRoundingMode, must give the same Decimal as Parse and as the independent literal evaluator (error when the value is out of range), directly and inside documents; null leaves the receiver untouched; JSON strings/bools/arrays/objects must be errors; arbitrary bytes and Go float syntax must not panic and, if accepted, must store what Parse gives. Non-trivial = exponent-form output or >= 20 digits (marshal), any number or non-number JSON value (unmarshal); distinct = distinct input.",
+		Rule:        "rapid draws Decimals (all patterns, values around the -6/20 switch of the JSON form) for MarshalJSON: the output must match an RFC 8259 number recogniser, denote the value exactly (independent numeral evaluator), carry no superfluous digits, and round-trip directly and through encoding/json inside a struct, slice, map and pointer; NaN/Inf must give *json.UnsupportedValueError. For UnmarshalJSON: RFC 8259 numbers from a grammar (ties after the 34th digit, long digit strings, exponents in the clamp windows and beyond int16), under a drawn DefaultRoundingMode, must give the same Decimal as Parse and as the independent literal evaluator (error when the value is out of range), directly and inside documents; null leaves the receiver untouched; JSON strings/bools/arrays/objects must be errors; arbitrary bytes and Go float syntax must not panic and, if accepted, must store what Parse gives. Every decoding call is made on a receiver whose earlier contents are a pure function of the case (zero value, all ones, -Cmax*10^6111, +Inf or arbitrary bits): the stored result must not depend on them. Non-trivial = exponent-form output or >= 20 digits (marshal), any number or non-number JSON value (unmarshal); distinct = distinct input.",
 		Assumptions: append([]string{"encoding/json is the reference for JSON validity of whole documents; byte strings that are not JSON values are outside the statement's 'non-numbers' and only the no-panic/no-wrong-value clauses apply"}, commonAssumptions...),
 	},
 	"C15": {
